@@ -91,3 +91,70 @@ package journal
 //@   loop 8 invariant forall m int :: {elemAddr(a.Balances, m)} 0 <= m && m < $i ==> tkind(entry(tlen()) + m) == kind("Balance") && targ0(entry(tlen()) + m) == a && targ1(entry(tlen()) + m) == elemAddr(a.Balances, m)
 //@   loop 10 invariant 0 <= $i && $i <= len(a.Balances)
 //@   loop 10 invariant forall m int :: {elemAddr(a.Balances, m)} 0 <= m && m < $i ==> tkind(entry(tlen()) + m) == kind("Balance") && targ0(entry(tlen()) + m) == a && targ1(entry(tlen()) + m) == elemAddr(a.Balances, m)
+//
+// ---- processors (closures of process.go) --------------------------------------------------------
+//
+// ComputePrices: prices are inserted on their day; at the end of a day with price directives the
+// normalised prices are recomputed, otherwise the previous ones are carried forward.
+//@ func ComputePrices$1
+//@   requires wfPrices(prc) && p != nil && p.Commodity != nil && p.Target != nil
+//@   modifies prc[*], prc[p.Target][*], prc[p.Commodity][*]
+//@   ensures wfPrices(prc)
+//@   ensures (result == nil) <==> p.Price != 0
+//
+//@ func ComputePrices$2
+//@   requires wfPrices(prc) && d != nil
+//@   modifies previous, d.Normalized
+//@   ensures result == nil && d.Normalized == previous && wfPrices(prc)
+//@   ensures len(d.Prices) == 0 ==> previous == old(previous)
+//@   ensures len(d.Prices) > 0 ==> fresh(previous) && (v in previous) && previous[v] == 1.0
+//
+// Valuate, posting callback: the value of a posting is its quantity in the valuation commodity, else
+// quantity x today's normalised price truncated to 8 decimals; a missing price is an error and the
+// value is left untouched; asset/liability quantities are accumulated for the daily revaluation.
+//@ def keysOK(q amounts.Amounts) bool := q != nil && (forall k amounts.Key :: {key(q, k)} (k in q) ==> validAccount(k.Account) && k.Commodity != nil)
+//
+//@ func Valuate$2
+//@   requires p != nil && validAccount(p.Account) && p.Commodity != nil && keysOK(quantities)
+//@   modifies p.Value, quantities[*]
+//@   ensures keysOK(quantities)
+//@   ensures @zero: p.Quantity == 0 ==> result == nil && p.Value == old(p.Value)
+//@   ensures @same: p.Quantity != 0 && valuation == p.Commodity ==> result == nil && p.Value == p.Quantity
+//@   ensures @priced: p.Quantity != 0 && valuation != p.Commodity && (p.Commodity in prices) ==> result == nil && p.Value == mult(p.Quantity, prices[p.Commodity])
+//@   ensures @missing: p.Quantity != 0 && valuation != p.Commodity && !(p.Commodity in prices) ==> result != nil && p.Value == old(p.Value)
+//@   ensures @track: p.Quantity != 0 && isAL(p.Account) ==> dom(quantities) == upd(old(dom(quantities)), amounts.Key{Account: p.Account, Commodity: p.Commodity}, true)
+//@        && vals(quantities) == upd(old(vals(quantities)), amounts.Key{Account: p.Account, Commodity: p.Commodity}, old(quantities[amounts.Key{Account: p.Account, Commodity: p.Commodity}]) + p.Quantity)
+//@   ensures @notrack: p.Quantity == 0 || !isAL(p.Account) ==> dom(quantities) == old(dom(quantities)) && vals(quantities) == old(vals(quantities))
+//
+//@ func Valuate$3
+//@   requires d != nil
+//@   modifies prevPrices
+//@   ensures result == nil && prevPrices == d.Normalized
+//
+// Filter: days outside the window lose their transactions, days inside keep them.
+//@ func Filter$1
+//@   requires d != nil
+//@   modifies d.Transactions
+//@   ensures result == nil
+//@   ensures (part.span.Start <= d.Date && d.Date <= part.span.End) ==> d.Transactions == old(d.Transactions)
+//@   ensures !(part.span.Start <= d.Date && d.Date <= part.span.End) ==> d.Transactions == nil
+//
+// Valuate, day start: today's prices become current; every asset/liability position in a foreign
+// commodity with a non-zero quantity is revalued: if the price moved, one balanced adjustment
+// transaction (quantity 0, value = (price today - price before) x quantity, truncated) is appended;
+// existing transactions are kept. If a needed price is missing the callback fails.
+//@ def needsReval(k amounts.Key, q amounts.Amounts, v *commodity.Commodity) bool := k.Commodity != v && isAL(k.Account) && q[k] != 0
+//@ def adjustment(tr *transaction.Transaction, d *Day) bool := okTx(tr) && tr.Postings[1].Quantity == 0 && tr.Postings[0].Quantity == 0 && tr.Date == d.Date
+//
+//@ func Valuate$1
+//@   requires d != nil && keysOK(quantities) && reg != nil && reg.accounts != nil
+//@   modifies prices, d.Transactions, d.Transactions[*], reg.accounts.index[*], reg.accounts.swaps[*]
+//@   ensures @today: prices == d.Normalized
+//@   ensures @missing: result == nil ==> (forall k amounts.Key :: {key(quantities, k)} (k in quantities) && needsReval(k, quantities, valuation) ==> (k.Commodity in prevPrices) && (k.Commodity in d.Normalized))
+//@   ensures @kept: len(d.Transactions) >= old(len(d.Transactions)) && (forall j int :: {d.Transactions[j]} 0 <= j && j < old(len(d.Transactions)) ==> d.Transactions[j] == old(d.Transactions[j]))
+//@   ensures @adj: forall j int :: {d.Transactions[j]} old(len(d.Transactions)) <= j && j < len(d.Transactions) ==> adjustment(d.Transactions[j], d)
+//@   loop 1 invariant prices == d.Normalized && keysOK(quantities) && d.Date == old(d.Date) && d.Normalized == old(d.Normalized)
+//@   loop 1 invariant forall k amounts.Key :: {$seen[k]} $seen[k] && needsReval(k, quantities, valuation) ==> (k.Commodity in prevPrices) && (k.Commodity in d.Normalized)
+//@   loop 1 invariant len(d.Transactions) >= old(len(d.Transactions)) && (forall j int :: {d.Transactions[j]} 0 <= j && j < old(len(d.Transactions)) ==> d.Transactions[j] == old(d.Transactions[j]))
+//@   loop 1 invariant forall j int :: {d.Transactions[j]} old(len(d.Transactions)) <= j && j < len(d.Transactions) ==> okTx(d.Transactions[j])
+//@   loop 1 invariant forall j int :: {d.Transactions[j]} old(len(d.Transactions)) <= j && j < len(d.Transactions) ==> d.Transactions[j].Postings[1].Quantity == 0 && d.Transactions[j].Postings[0].Quantity == 0 && d.Transactions[j].Date == d.Date
